@@ -10,6 +10,10 @@ destruction, flushes in any order — `Reachable`; those that need the documente
 returned by a collector call is flushed before the next call / before the state dies) quantify over all
 operation lists satisfying `Flushed` — `FlushedReachable`.
 
+Operation lists include `emitter::operator=` (`assign`: what a busy listener's emitter denotes — the shared state or nothing)
+and `connect` through a signal object without state (`connect0`); `c15_assign_only_retargets`, `c15_assign_then_await`,
+`c15_callbacks_unconnected` say what these do, every other theorem quantifies over them.
+
 Also here: `c15_hookup_receives_registration_value` (`hook_up` subscribes before the registration function runs),
 `c15_model_is_the_loop` (the closed forms the proofs use are the awaiter-by-awaiter loops of the code, which is
 what the driver runs against the headers) and the publication discipline of `awaiter::subscribe`
@@ -98,10 +102,11 @@ theorem c15_resume_reads_current {s : State} (h : Reachable s) (l : Nat) (hl : l
   split
   next v hv =>
     rw [hv]
-    unfold afterValue reawait
+    have hcn := hi.rel_conn _ hl
+    unfold afterValue await reawait
     dsimp only
     have h0 : s.handles ≠ 0 := by intro h0; simp [readNow, h0] at hv
-    split <;> simp [h0, hme]
+    split <;> simp [h0, hme, hcn]
   next => simp [hme]
 
 /-- No miss, all flushed histories: a listener that does nothing between signals except re-await has observed
@@ -122,11 +127,12 @@ theorem c15_no_miss_present {s : State} (h : FlushedReachable s) (l : Nat) (hl :
 /-- Callbacks, every history: a connected callback with budget `n` (answers `true` n times) has been called with
 exactly the first `n+1` values emitted since `connect`, once each, in order; it is released (`free`, exactly once, as
 its last event) iff it answered false or the last handle is gone; it stays connected exactly as long as neither happened. -/
-theorem c15_callbacks {s : State} (h : Reachable s) (c : Nat) (hc : c < s.next) (hk : s.isCb c = true) :
+theorem c15_callbacks {s : State} (h : Reachable s) (c : Nat) (hc : c < s.next) (hk : s.isCb c = true)
+    (hcn : s.conn c = true) :
     s.got c = ((s.emitted.drop (s.subAt c)).take (s.budget c + 1)).map Out.val
                 ++ (if c ∈ s.chain then [] else [Out.free]) ∧
     (c ∈ s.chain ↔ s.handles ≠ 0 ∧ s.emitted.length - s.subAt c ≤ s.budget c) := by
-  have sp := (reachable_inv h).cb c hc hk
+  have sp := (reachable_inv h).cb c hc hk hcn
   by_cases hm : c ∈ s.chain
   · obtain ⟨h0, hle, _, hg⟩ := sp.1 hm
     refine ⟨?_, ⟨fun _ => ⟨h0, hle⟩, fun _ => hm⟩⟩
@@ -138,6 +144,59 @@ theorem c15_callbacks {s : State} (h : Reachable s) (c : Nat) (hc : c < s.next) 
     · exact absurd e hh.1
     · omega
 
+/-- …and a callback connected through a `signal` object that has no state (moved-from): `initial_reg` cannot lock the
+weak pointer, the awaiter deletes itself at once — released exactly once, never called, never in the chain (every history). -/
+theorem c15_callbacks_unconnected {s : State} (h : Reachable s) (c : Nat) (hc : c < s.next) (hk : s.isCb c = true)
+    (hcn : s.conn c = false) : s.got c = [Out.free] ∧ c ∉ s.chain := by
+  refine ⟨(reachable_inv h).cb0 c hc hk hcn, fun hm => ?_⟩
+  have := (reachable_inv h).chain_conn c hm
+  rw [hcn] at this; cases this
+
+/-- Emitter assignment (`emitter::operator=`, only the weak pointer is copied), every history: assigning to the emitter of
+a listener that is busy elsewhere changes nothing but what that emitter denotes — every subscribed or released listener
+stays where it is, the state it denoted before loses no reference (emitters hold none) and nobody observes anything;
+every listener that is waiting or released denotes the shared state (so the broadcast theorems apply to it unchanged). -/
+theorem c15_assign_only_retargets {s : State} (h : Reachable s) (l : Nat) (b : Bool) :
+    (stepAssign s l b).1.chain = s.chain ∧ (stepAssign s l b).1.rel = s.rel ∧ (stepAssign s l b).1.handles = s.handles
+    ∧ (stepAssign s l b).1.got = s.got ∧ (stepAssign s l b).1.gated = s.gated
+    ∧ (∀ l', l' ∈ s.chain ∨ l' ∈ s.rel → (stepAssign s l b).1.conn l' = true) := by
+  have hi := reachable_inv h
+  unfold stepAssign
+  split
+  next hl =>
+    refine ⟨rfl, rfl, rfl, rfl, rfl, ?_⟩
+    intro l' hm
+    have e : l' ≠ l := by
+      intro e; subst e
+      rcases hm with hm | hm
+      · exact hi.disj_cg _ hm hl
+      · exact hi.disj_rg _ hm hl
+    dsimp only
+    rw [upd_other _ _ e]
+    rcases hm with hm | hm
+    · exact hi.chain_conn _ hm
+    · exact hi.rel_conn _ hm
+  next =>
+    refine ⟨rfl, rfl, rfl, rfl, rfl, ?_⟩
+    intro l' hm
+    rcases hm with hm | hm
+    · exact hi.chain_conn _ hm
+    · exact hi.rel_conn _ hm
+
+/-- …and what the assigned-to emitter denotes afterwards decides the listener's next `co_await`: an emitter assigned
+from a connected one subscribes (while the signal is connected), one assigned from an emitter without state fails at
+once with the cancellation and is not parked. -/
+theorem c15_assign_then_await {s : State} (h : Reachable s) (l : Nat) (hl : l ∈ s.gated) :
+    (s.handles ≠ 0 → l ∈ (stepWake (stepAssign s l true).1 l).1.chain) ∧
+    ((stepWake (stepAssign s l false).1 l).1.got l = s.got l ++ [Out.canceled]
+      ∧ l ∉ (stepWake (stepAssign s l false).1 l).1.chain ∧ l ∉ (stepWake (stepAssign s l false).1 l).1.gated) := by
+  have hi := reachable_inv h
+  have hme : l ∉ s.gated.erase l := fun hh => ((List.Nodup.mem_erase_iff hi.gated_nodup).mp hh).1 rfl
+  have hc : l ∉ s.chain := fun hc => hi.disj_cg _ hc hl
+  refine ⟨fun h0 => ?_, ?_⟩
+  · simp [stepAssign, stepWake, await, reawait, hl, h0]
+  · simp [stepAssign, stepWake, await, cancelNow, hl, hme, hc]
+
 /-- Disconnect (1), every history: once the last handle is gone nobody is parked in the chain — every callback
 has been released (by `c15_callbacks`) and every coroutine listener is in a suspend point, busy elsewhere, or finished. -/
 theorem c15_disconnect_nobody_parked {s : State} (h : Reachable s) (h0 : s.handles = 0) :
@@ -145,9 +204,11 @@ theorem c15_disconnect_nobody_parked {s : State} (h : Reachable s) (h0 : s.handl
     (∀ l, l ∈ s.rel → readNow s = Out.canceled) := by
   refine ⟨(reachable_inv h).dead_chain h0, ?_, fun _ _ => by simp [readNow, h0]⟩
   intro c hc hk
-  have := (c15_callbacks h c hc hk).1
-  have hm : c ∉ s.chain := by rw [(reachable_inv h).dead_chain h0]; simp
-  rw [this]; simp [hm]
+  by_cases hcn : s.conn c = true
+  · have := (c15_callbacks h c hc hk hcn).1
+    have hm : c ∉ s.chain := by rw [(reachable_inv h).dead_chain h0]; simp
+    rw [this]; simp [hm]
+  · rw [(reachable_inv h).cb0 c hc hk (by simpa using hcn)]; rfl
 
 /-- Disconnect (2), the step: destroying the last handle releases the whole chain: every waiting coroutine listener
 goes into the destructor's suspend point and will read the cancellation, every callback is released, the chain is empty. -/
@@ -187,13 +248,15 @@ theorem c15_await_disconnected_fails {s : State} (h : Reachable s) (h0 : s.handl
   refine ⟨by simp [stepListen, reawait, fresh, h0, hc], ?_⟩
   intro l hl
   have hme : l ∉ s.gated.erase l := fun hh => ((List.Nodup.mem_erase_iff hi.gated_nodup).mp hh).1 rfl
-  simp [stepWake, reawait, hl, h0, hc, hme]
+  by_cases hcn : s.conn l = true
+  · simp [stepWake, await, reawait, hl, h0, hc, hme, hcn]
+  · simp [stepWake, await, cancelNow, hl, hc, hme, hcn]
 
 /-- …and a never-connected (default constructed) emitter fails the same way in every state -/
 theorem c15_await_unconnected_fails (s : State) (sc : List Act) :
     (stepListen0 s sc).1.got s.next = [Out.canceled] ∧ (stepListen0 s sc).1.chain = s.chain
     ∧ (stepListen0 s sc).1.rel = s.rel := by
-  simp [stepListen0, fresh]
+  simp [stepListen0, cancelNow, fresh]
 
 /-- Negative lemma — why `Flushed` is needed: three collector calls whose suspend points are not flushed in between
 (emitting coroutine that discards them, or a thread that keeps them) make a purely re-awaiting listener observe only
@@ -285,5 +348,22 @@ example : (run init (demo.take 5)).rel = [] ∧ (run init (demo.take 5)).handles
     ∧ corosOf (run init (demo.take 5)) = [3, 1, 0] ∧ cbsOf (run init (demo.take 5)) = [2] := by decide
 /-- a reachable state with the last handle about to go and two parked listeners (`c15_disconnect_wakes_all`) -/
 example : (run init (demo.take 16)).handles = 1 ∧ (run init (demo.take 16)).chain = [0, 1] := by decide
+
+/-- reachable states that use the new steps: a listener is gated, its emitter is assigned from an emitter without state
+(`assign 0 false`), it re-awaits and is cancelled at once while listener 1 keeps receiving; a callback connected through a
+moved-from signal (`connect0`) is released at once; assigning a connected emitter again (`assign 2 true`) re-subscribes -/
+def demoAssign : List Op :=
+  [Op.listen [Act.gate], Op.listen [], Op.listen [Act.gate, Act.gate], Op.connect0 3,
+   Op.emit false 1, Op.resume 2, Op.resume 1, Op.resume 0,
+   Op.assign 0 false, Op.wake 0, Op.assign 2 false, Op.assign 2 true, Op.wake 2,
+   Op.emit true 2, Op.resume 2, Op.resume 1]
+
+example : FlushedReachable (run init demoAssign) := ⟨demoAssign, by decide, rfl⟩
+example : (run init demoAssign).got 0 = [Out.val 1, Out.canceled]
+    ∧ (run init demoAssign).got 1 = [Out.val 1, Out.val 2]
+    ∧ (run init demoAssign).got 2 = [Out.val 1, Out.val 2]
+    ∧ (run init demoAssign).got 3 = [Out.free]
+    ∧ (run init demoAssign).conn 0 = false ∧ (run init demoAssign).conn 2 = true
+    ∧ (run init demoAssign).chain = [1] ∧ (run init demoAssign).gated = [2] := by decide
 
 end Cocls.Signal
